@@ -381,6 +381,9 @@ class Activated(Term):
             np.atleast_2d(self.degree).T,
             self.term.membership(x),
         )
+        if np.size(self.degree) > 1 and np.ndim(x) > 0:
+            # keep the shape (degrees, values of x) of a batch of degrees even if x holds a single value
+            return y  # type:ignore
         return y.squeeze()  # type:ignore
 
 
